@@ -16,7 +16,7 @@ from oqv.astutil import call_name, method_call
 from oqv.cfg import CFG
 from oqv.dataflow import DefUse
 from oqv.forms import Poly, eval_form
-from oqv.model import AnalysisError, Program, Unit, dotted, norm, walk_local
+from oqv.model import AnalysisError, Program, Unit, dotted, norm, walk_local, kw_of
 from oqv.report import Check
 from rules import c18
 
@@ -272,8 +272,7 @@ def h2_h3(prog: Program, chk: Check) -> None:
     def rev_arg(nid) -> bool:
         for c in g.nodes[nid].calls():
             if call_name(c) == "_apply_pt_mpos":
-                v = next((k.value for k in c.keywords if k.arg == "reverse"),
-                         c.args[3] if len(c.args) > 3 else None)
+                v = kw_of(c).get("reverse", c.args[3] if len(c.args) > 3 else None)
                 if v is None:
                     return False
                 if isinstance(v, ast.Constant):
@@ -704,7 +703,7 @@ def h7(prog: Program, chk: Check) -> None:
             n += 1
             backward = nd.id in back
             bound = {params[i]: a for i, a in enumerate(c.args) if i < len(params)}
-            bound.update({k.arg: k.value for k in c.keywords if k.arg})
+            bound.update(kw_of(c))
             flags = {p: v.value for p, v in bound.items()
                      if isinstance(v, ast.Constant) and isinstance(v.value, bool)}
             roles = c03._leg_roles(ap, names, flags=flags)
